@@ -230,6 +230,11 @@ static void shape_misc(void) {
 
 static void interpret(void) {
   loglen = 0; logbuf[0] = 0; rc_bad = 0; rc_first[0] = 0;
+  /* every program starts from freshly (statically) initialised objects: otherwise only the first program of a
+     process would exercise the first-use conversion of PTHREAD_*_INITIALIZER objects, and a run's events would
+     depend on the runs before it */
+  { static const pthread_mutex_t mi = PTHREAD_MUTEX_INITIALIZER; static const pthread_cond_t ci = PTHREAD_COND_INITIALIZER;
+    det_mx = mi; dmx = mi; det_cv = ci; }
   long shapes = P[T_SHAPES];
   if (shapes & 1) shape_tree();
   if (shapes & 2) shape_counters();
